@@ -28,6 +28,9 @@ pub enum Wait {
     Line(String),
     Eof,
     Timeout,
+    /// no output and no CPU time consumed for several seconds: the process is not working on an
+    /// answer, it is waiting for input — whatever has not been answered never will be
+    Idle,
 }
 
 impl Proc {
@@ -110,6 +113,40 @@ impl Proc {
                         return Ok(v);
                     }
                     v.push(l);
+                }
+                other => return Err(other),
+            }
+        }
+    }
+
+    /// Like `read_until`, but gives up as soon as the process has been idle (no output, CPU time
+    /// not increasing) for `idle` — an idle engine is not still searching.
+    pub fn read_until_or_idle(&mut self, marker: &str, timeout: Duration, idle: Duration) -> Result<Vec<String>, Wait> {
+        let deadline = Instant::now() + timeout;
+        let mut v = Vec::new();
+        let mut last_ticks = self.cpu_ticks();
+        let mut idle_since = Instant::now();
+        loop {
+            let left = deadline.saturating_duration_since(Instant::now());
+            if left.is_zero() {
+                return Err(Wait::Timeout);
+            }
+            match self.next_line(left.min(Duration::from_millis(250))) {
+                Wait::Line(l) => {
+                    idle_since = Instant::now();
+                    if l.trim_end() == marker {
+                        return Ok(v);
+                    }
+                    v.push(l);
+                }
+                Wait::Timeout => {
+                    let t = self.cpu_ticks();
+                    if t != last_ticks {
+                        last_ticks = t;
+                        idle_since = Instant::now();
+                    } else if idle_since.elapsed() >= idle {
+                        return Err(Wait::Idle);
+                    }
                 }
                 other => return Err(other),
             }
